@@ -23,17 +23,25 @@
    compatible again), custom object ids, NaN. *)
 From Coq Require Import List NArith ZArith QArith Bool Arith.
 From Similari Require Import Model.VisualAttrs.
+From Similari Require Base.Num.
+From SimilariGen Require Scalar ScalarGate ScalarVisual.
 Import ListNotations.
 Local Open Scope nat_scope.
 
-Inductive vkind := Euclid (t : Q) | Cosine (t : Q).
+(* The gate predicates are the TRANSLATED ones (gen/ScalarVisual.v, regenerated from src/trackers/visual_sort/metric.rs
+   on every run), instantiated at exact rationals; their spec lemmas are in Proofs/VisualGateProofs.v. *)
+Definition vkind := ScalarVisual.VisualSortMetricType Num.Qops.
+Definition Euclid (t : Q) : vkind := ScalarVisual.VisualSortMetricType_Euclidean Num.Qops t.
+Definition Cosine (t : Q) : vkind := ScalarVisual.VisualSortMetricType_Cosine Num.Qops t.
 (* VisualSortMetricType::is_ok / distance_to_weight *)
-Definition is_ok (k : vkind) (d : Q) : bool :=
-  match k with Euclid t => Qle_bool d t | Cosine t => Qle_bool t d end.
-Definition distance_to_weight (k : vkind) (d : Q) : Q :=
-  match k with Euclid _ => d | Cosine _ => Qred (1 - d) end.
+Definition is_ok (k : vkind) (d : Q) : bool := ScalarVisual.visual_is_ok Num.Qops k d.
+Definition distance_to_weight (k : vkind) (d : Q) : Q := ScalarVisual.visual_distance_to_weight Num.Qops k d.
 
-Inductive pkind := IoU (thr : Q) | Maha.
+Definition pkind := ScalarGate.PositionalMetricType Num.Qops.
+Definition IoU (thr : Q) : pkind := ScalarGate.PositionalMetricType_IoU Num.Qops thr.
+Definition Maha : pkind := ScalarGate.PositionalMetricType_Mahalanobis Num.Qops.
+(* a box of confidence 1: with minimal confidence 0 the translated positional_metric multiplies the IoU by 1 *)
+Definition unit_box : Scalar.Universal2DBox Num.Qops := Scalar.Build_Universal2DBox Num.Qops 0%Q 0%Q None 1%Q 1%Q 1%Q.
 
 Record topts := mkTopts {
   to_g : gopts;            (* max_obs, history, minimal area, COLLECT quality / own-area thresholds *)
@@ -90,10 +98,20 @@ Definition compatible (scene e : N) (t : ttrack) : bool :=
 Definition can_use (d : det) : bool :=
   feature_can_be_used (o_min_area (to_g o)) (d_area d) (d_q d) (to_q_use o) (d_own d) (to_own_use o).
 
+(* The oracle value is conf * IoU BEFORE the threshold (or the Mahalanobis cost / conf).  The IoU threshold filter is the
+   one of the translated positional_metric: it is applied to (value, confidence 1). *)
 Definition pos_gate (p : option (Q * Z)) : option (Q * Z) :=
   match to_pos o with
-  | Maha => p
-  | IoU thr => match p with Some (w, z) => if Qle_bool thr w then Some (w, z) else None | None => None end
+  | ScalarGate.PositionalMetricType_Mahalanobis _ => p
+  | ScalarGate.PositionalMetricType_IoU _ _ =>
+      match p with
+      | Some (w, z) =>
+          match ScalarVisual.visual_positional_metric Num.Qops (Some unit_box) (Some unit_box) 0%Q (to_pos o) false 0%Q (Some w) with
+          | Some _ => Some (w, z)
+          | None => None
+          end
+      | None => None
+      end
   end.
 
 Definition collected (t : ttrack) : nat := a_collected (t_attrs (tt_body t)).
@@ -101,10 +119,10 @@ Definition collected (t : ttrack) : nat := a_collected (t_attrs (tt_body t)).
 Definition visual_metric (cl : call) (d : det) (t : ttrack) (x : gentry) : option Q :=
   if can_use d then
     if d_feat d && g_feat x then
-      if to_min_len o <=? collected t then
-        let dd := c_fd cl (d_uid d) (g_uid x) in
-        if is_ok (to_vis o) dd then Some (distance_to_weight (to_vis o) dd) else None
-      else None
+      (* the translated visual_metric: collected >= minimal length, is_ok, distance_to_weight; the oracle supplies the
+         distance of the configured kind, so it is passed for both kinds *)
+      let dd := c_fd cl (d_uid d) (g_uid x) in
+      ScalarVisual.visual_metric Num.Qops (N.of_nat (collected t)) (N.of_nat (to_min_len o)) (to_vis o) dd dd
     else None
   else None.
 
